@@ -20,6 +20,9 @@ SCRATCH = "/tmp/verif-mut"
 
 # (name, properties expected to catch it, file, old, new)
 MUTANTS = [
+    # the D17 repair undone: a panic of the Hyperlane modules crosses the receive path again
+    ("hyp-no-panic-recovery", "C14", "controller/forwarding/hyperlane.go",
+     "			err = fmt.Errorf(\"hyperlane remote transfer panicked: %v\", r)\n", "			panic(r)\n"),
     ("drop-sweep", "C11,C03", "keeper/component/adapter/adapter.go",
      "	if err := a.clearOrbiterBalance(ctx, denom); err != nil {\n		return err\n	}\n", ""),
     ("skip-initial-conditions", "C11,C01", "keeper/component/forwarder/forwarder.go",
